@@ -28,6 +28,10 @@ def instances(tier):
         # a failing encoder leaves part of a record behind: the acknowledged records around it stay whole and in order
         I("pre_encfail", trig="pre", count=2, sizes=(1, 2), maxrec=4, encfail=1, restart=1, pre="PreNone"),
         I("post_encfail", trig="post", count=2, sizes=(1, 2), maxrec=3, encfail=1, crash=1, pre="PreNone"),
+        # a user-defined roller that returns Ok and leaves the file where it is: the appender carries on in the same file
+        I("size_noop", trig="size", roller="noop", count=0, limit=2, sizes=(1, 3), maxrec=4, restart=1),
+        I("pre_noop_t", trig="pre", roller="noop", count=0, append=False, sizes=(1, 2), maxrec=3, restart=1, faults=1),
+        I("post_noop", trig="post", roller="noop", count=0, sizes=(1, 2), maxrec=3, faults=1, pre="PreNone"),
         # a reconfiguration: the successor appender is built while its predecessor is alive and still acknowledges a record
         I("size_overlap", trig="size", count=2, limit=3, sizes=(1, 2), maxrec=4, overlap=2, restart=1),
         I("pre_overlap", trig="pre", count=2, sizes=(1, 2), maxrec=4, overlap=1, pre="PreNone"),
